@@ -1749,6 +1749,40 @@ pub fn gen(g: &mut Gen) {
         g.count("zlog.chain.tuple4.all-lengths");
         g.op(format!("@ zlog chain tuple a {} {}", action, shapes.join(";")));
     }
+    // K. constructor validation of stack / chain: one source that does not fit, in EVERY position,
+    // for every tuple arity and array form; whatever was (wrongly) constructed is iterated
+    {
+        let actions = ["copy", "ref", "mut", "owned", "map_mut", "map_mut_wi"];
+        let mut turn = 0usize;
+        for kind in ["stack", "chain"] {
+            for (form, k) in [("tuple", 2usize), ("tuple", 3), ("tuple", 4), ("array", 2), ("array", 3), ("array", 4)] {
+                for pos in 0..k {
+                    for flaw in ["shorter", "longer", "names"] {
+                        // the sources agree on a:2,b:3 (chain: along a, lengths 1..3 there)
+                        let shapes: Vec<String> = (0..k)
+                            .map(|i| {
+                                let a = if kind == "chain" { 1 + (i + turn) % 3 } else { 2 };
+                                if i == pos {
+                                    match flaw {
+                                        "shorter" => format!("a:{},b:2", a),
+                                        "longer" => format!("a:{},b:4", a),
+                                        _ => format!("a:{},c:3", a),
+                                    }
+                                } else {
+                                    format!("a:{},b:3", a)
+                                }
+                            })
+                            .collect();
+                        let action = actions[turn % actions.len()];
+                        turn += 1;
+                        g.count(&format!("zlog.invalid.{}.{}{}.{}", kind, form, k, flaw));
+                        let along = if kind == "chain" { "a".to_string() } else { format!("{}:s", turn % 3) };
+                        g.op(format!("@ zlog {} {} {} {} {}", kind, form, along, action, shapes.join(";")));
+                    }
+                }
+            }
+        }
+    }
     // G. matrices resized with invalid arguments, then walked (the survivor is used unguarded)
     let cases = if thorough { 400 } else { 60 };
     for _ in 0..cases {
